@@ -75,6 +75,7 @@ type texDesc struct {
 	URI       string `json:"uri"`
 	Sampler   int    `json:"sampler"`   // index into Samplers, -1: none
 	Transform int    `json:"transform"` // 0 none, 1 KHR_texture_transform, 2 ... and required
+	ExtShared bool   `json:"ext_shared,omitempty"` // the extension value is == to that of every other ExtShared texture with the same Transform
 }
 type extDesc struct {
 	Kind string `json:"kind"`
@@ -288,8 +289,15 @@ func toTRS(in instDesc) trs.TRS {
 		vector3.New(float64(in.S[0]), float64(in.S[1]), float64(in.S[2])))
 }
 
+// equality classes of texture extension values of the scene built last (build and the Coq rendering of one
+// description always run back to back)
+var texExtCls [][]int
+
 func build(d sceneDesc) built {
 	var b built
+	sharedOff := vector2.New(0.5, 0.25)
+	var texExtVals []gltf.TextureExtension
+	texExtCls = nil
 	// backing arrays: built once, handed out as sub-slices
 	pool4, pool3, pool2 := map[int][]vector4.Float64{}, map[int][]vector3.Float64{}, map[int][]vector2.Float64{}
 	for i, p := range d.AttrPool {
@@ -364,9 +372,29 @@ func build(d sceneDesc) built {
 			pt.Sampler = samplers[t.Sampler]
 		}
 		if t.Transform > 0 {
-			off := vector2.New(0.5, 0.25)
-			pt.Extensions = []gltf.TextureExtension{gltf.PolyformTextureTransform{Required: t.Transform == 2, Offset: &off}}
+			off := &sharedOff
+			if !t.ExtShared {
+				o := vector2.New(0.5, 0.25)
+				off = &o
+			}
+			pt.Extensions = []gltf.TextureExtension{gltf.PolyformTextureTransform{Required: t.Transform == 2, Offset: off}}
 		}
+		// equality classes of the extension values under Go's == (what PolyformTexture.equal evaluates)
+		var cls []int
+		for _, e := range pt.Extensions {
+			c := len(texExtVals)
+			for j, y := range texExtVals {
+				if y == e {
+					c = j
+					break
+				}
+			}
+			if c == len(texExtVals) {
+				texExtVals = append(texExtVals, e)
+			}
+			cls = append(cls, c)
+		}
+		texExtCls = append(texExtCls, cls)
 		b.textures = append(b.textures, pt)
 	}
 	tex := func(i int) *gltf.PolyformTexture {
@@ -581,7 +609,11 @@ func coqTex(d sceneDesc, i int) string {
 	if t.Transform > 0 {
 		exts = fmt.Sprintf("[(%s,%s)]", cstr("KHR_texture_transform"), hx.CoqBool(t.Transform == 2))
 	}
-	return fmt.Sprintf("{| tx_ptr := %d; tx_uri := %s; tx_samp := %s; tx_exts := %s |}", i, cstr(t.URI), samp, exts)
+	cls := []int{}
+	if i < len(texExtCls) {
+		cls = texExtCls[i]
+	}
+	return fmt.Sprintf("{| tx_ptr := %d; tx_uri := %s; tx_samp := %s; tx_exts := %s; tx_xcls := %s |}", i, cstr(t.URI), samp, exts, hx.CoqListN(cls))
 }
 func coqOptTex(d sceneDesc, i int) string {
 	if i < 0 {
